@@ -322,6 +322,8 @@ func (e *hkeyElements) Set(
 						// already reached MaxCollisionLimitPerDigest.
 						return nil, nil, NewCollisionLimitError(maxCollisionLimitPerDigest)
 					}
+					// Don't need to wrap error as external error because err is already categorized by element.Get().
+					return nil, nil, err
 				}
 			}
 		}
